@@ -420,9 +420,22 @@ static int
 Tokenizer_parse_wikilink(Tokenizer *self)
 {
     Py_ssize_t reset;
+    StackIdent text_link;
     PyObject *extlink, *wikilink, *kwargs;
 
     reset = self->head + 1;
+    // Not a route, but remembered like one: a wikilink at this position that
+    // looks like an external link, found inside a link title
+    text_link.head = reset;
+    text_link.context = LC_EXT_LINK_TITLE | LC_WIKILINK_TITLE;
+    if (self->topstack->context & LC_EXT_LINK_TITLE) {
+        self->head = reset;
+        if (Tokenizer_check_route(self, text_link.context) < 0) {
+            RESET_ROUTE();
+            return Tokenizer_emit_text(self, "[[");
+        }
+        self->head = reset - 1;
+    }
     self->head += 2;
     // If the wikilink looks like an external link, parse it as such:
     extlink = Tokenizer_really_parse_external_link(self, 1, NULL);
@@ -461,8 +474,10 @@ Tokenizer_parse_wikilink(Tokenizer *self)
     }
     if (self->topstack->context & LC_EXT_LINK_TITLE) {
         // In this exceptional case, an external link that looks like a
-        // wikilink inside of an external link is parsed as text:
+        // wikilink inside of an external link is parsed as text (and the
+        // text is read again: do not parse the link again then):
         Py_DECREF(extlink);
+        Tokenizer_memoize_ident(self, text_link);
         self->head = reset;
         if (Tokenizer_emit_text(self, "[[")) {
             return -1;
